@@ -432,7 +432,8 @@ pub fn all_params(tier: Tier) -> Vec<(Params, usize)> {
     // Part B: concurrent flows with schedule / transport deviations
     let b = if thorough { 3 } else { 2 };
     let f = |stream, up, path, chunks: &[usize], rb| Flow { stream, up, path, chunks: chunks.to_vec(), read_buf: rb };
-    for (scheme, scheme_name) in schemes {
+    let schemes_b: [(&'static str, &'static str); 4] = [(STOP0, "stop0"), (DEFAULT, "default"), (TINY, "tiny"), (BRANCHY, "branchy")];
+    for (scheme, scheme_name) in schemes_b {
         // two streams upstream, direct path, short reads straddling headers
         v.push((Params { streams: 2, flows: vec![f(0, true, Path::Direct, &[1, 7], 7), f(1, true, Path::Direct, &[8, 30], 8192)], scheme, scheme_name, capacity: usize::MAX, read_menu: true, write_menu: false }, b));
         // two streams downstream through the forwarding task
